@@ -17,6 +17,7 @@ ASSUMPTIONS = [
     "warnings are not compared, only results, exceptions by class (QPDFExc / runtime_error / logic_error) and the complete object state",
     "the list specification is evaluated on histories whose operands are pages, page-like dictionaries or unrelated objects; operations that damage the tree directly (replaceObject/swapObjects on /Pages nodes or the catalog, a page replaced by a non-dictionary) are compared model-vs-implementation only and the specification resumes after updateAllPagesCache",
     "getAllPages() handing out a reference that user code mutates is outside (DESIGN C13)",
+    "ext part: PgxModel.pgx_reread treats QPDFWriter as the identity on the object graph (C01's subject) and compares /Count and the marker list of the re-read file, not its warnings; the leaf function pgx_doc_leaves is compared with the driver's raw tree walk only where that walk meets dictionaries (otherwise both must refuse)",
 ]
 
 # ---------------------------------------------------------------- documents
@@ -1413,9 +1414,11 @@ def ext_gen(chk):
             FAMILIES[name] = ((lambda b, s=seed, f=builder: f(s, b)), True)
             new.append(name)
     old = [f for f in BASE_FAMILIES if FAMILIES[f][1]]
+    wc = [f for f in new if f in WRONGCOUNT]
+    rest = [f for f in new if f not in WRONGCOUNT]
     for _ in range(420 if quick else 8000):
-        fa = rng.choice(new)
-        fb = rng.choice(new) if rng.random() < 0.5 else rng.choice(old)
+        fa = rng.choice(wc) if rng.random() < 0.15 else rng.choice(rest)
+        fb = rng.choice(rest) if rng.random() < 0.5 else rng.choice(old)
         if rng.random() < 0.5:
             fa, fb = fb, fa
         ops = gen_ops(rng, rng.choice([3, 8, 20]))
